@@ -66,45 +66,65 @@ def orBytes : Bytes → Bytes → Bytes
   | a :: as, b :: bs => (a ||| b) :: orBytes as bs
   | _, _ => []
 
-/-- `EncodeState.emplace_bytes(new_data, obj_used_mask=mask)` -/
+/-- masked write of `new` at byte `pos` (message zero-extended as needed) -/
+def placeBytes (msg : Bytes) (pos : Nat) (new mask : Bytes) : Bytes :=
+  let m := padTo msg (pos + new.length)
+  m.take pos ++ mergeBytes ((m.drop pos).take new.length) new mask ++ m.drop (pos + new.length)
+
+/-- the used-bit mask after a masked write -/
+def placeUsed (used : Bytes) (pos : Nat) (n : Nat) (mask : Bytes) : Bytes :=
+  let u := padTo used (pos + n)
+  u.take pos ++ orBytes ((u.drop pos).take n) (mask.take n) ++ u.drop (pos + n)
+
+/-- `EncodeState.emplace_bytes(new_data, obj_used_mask=mask)`; `msg` and `used` have equal length
+    (`__post_init__`), so extending both by the same pad keeps them aligned -/
 def emplaceBytes (new : Bytes) (mask : Option Bytes) : EncM Unit := do
-  let s ← get
+  let s ← getS
   if s.cursorBit ≠ 0 then odxraise .foreign                -- odxraise(…, RuntimeError)
   let pos := s.cursorByte
   let n := new.length
-  let msg := padTo s.msg (pos + n)
-  let used := s.used ++ List.replicate (msg.length - s.msg.length) 0       -- `used_mask += pad`
+  let used := s.used ++ List.replicate ((padTo s.msg (pos + n)).length - s.msg.length) 0   -- `used_mask += pad`
   match mask with
   | none =>
+    let msg := padTo s.msg (pos + n)
     let ov := ((used.drop pos).take n).any (· ≠ 0)
-    set { s with msg := msg.take pos ++ new ++ msg.drop (pos + n),
-                 used := used.take pos ++ List.replicate n 255 ++ used.drop (pos + n),
-                 warn := s.warn + (if ov then 1 else 0), cursorByte := pos + n }
+    setS { s with msg := msg.take pos ++ new ++ msg.drop (pos + n),
+                  used := used.take pos ++ List.replicate n 255 ++ used.drop (pos + n),
+                  warn := s.warn + (if ov then 1 else 0), cursorByte := pos + n }
   | some m =>
     if m.length < n then raise .foreign                    -- obj_used_mask[i] → IndexError
     else
-      let oldMsg := (msg.drop pos).take n
       let oldUsed := (used.drop pos).take n
-      set { s with msg := msg.take pos ++ mergeBytes oldMsg new m ++ msg.drop (pos + n),
-                   used := used.take pos ++ orBytes oldUsed (m.take n) ++ used.drop (pos + n),
-                   warn := s.warn + overlapCount oldUsed m, cursorByte := pos + n }
+      setS { s with msg := placeBytes s.msg pos new m,
+                    used := placeUsed used pos n m,
+                    warn := s.warn + overlapCount oldUsed m, cursorByte := pos + n }
 
-/-- raw (unsigned) representation of an `A_INT32` internal value -/
-def rawOfInt32 (enc : Option Enc) (bl : Nat) (v : Int) : EncM Nat := do
+/-- the four encodings `emplace_atomic_value` knows for `A_INT32` -/
+def int32Known (enc : Option Enc) : Bool :=
+  enc = none || enc = some .onec || enc = some .twoc || enc = some .sm
+
+/-- `min_value <= internal_value <= max_value` for the encoding -/
+def int32RangeOk (enc : Option Enc) (bl : Nat) (v : Int) : Bool :=
   let signBit : Int := if bl > 0 then 2 ^ (bl - 1) else 0
   let maxV : Int := max (signBit - 1) 0
   let minV : Int := if enc = none ∨ enc = some .twoc then -signBit else -maxV
-  let known := enc = none ∨ enc = some .onec ∨ enc = some .twoc ∨ enc = some .sm
-  if known ∧ ¬ (minV ≤ v ∧ v ≤ maxV) then odxraise .encode
-  let raw : Int ←
-    if enc = some .onec then pure (if v ≥ 0 then v else (2 ^ bl - 1) + v)
-    else if enc = none ∨ enc = some .twoc then pure (if v ≥ 0 then v else (2 ^ bl - 1) + v + 1)
-    else if enc = some .sm then pure (if v ≥ 0 then v else signBit + v.natAbs)
-    else do
-      odxraise .odx                                          -- illegal encoding for A_INT32
-      if enc = some .bcdp then pure (Int.ofNat (bcdEnc 4 v.natAbs v.natAbs))
-      else if enc = some .bcdup then pure (Int.ofNat (bcdEnc 8 v.natAbs v.natAbs))
-      else pure v
+  decide (minV ≤ v) && decide (v ≤ maxV)
+
+/-- the raw value before the final range check (a Python `int`, possibly negative in lenient mode) -/
+def int32Raw (enc : Option Enc) (bl : Nat) (v : Int) : Int :=
+  let signBit : Int := if bl > 0 then 2 ^ (bl - 1) else 0
+  if enc = some .onec then (if v ≥ 0 then v else (2 ^ bl - 1) + v)
+  else if enc = none ∨ enc = some .twoc then (if v ≥ 0 then v else (2 ^ bl - 1) + v + 1)
+  else if enc = some .sm then (if v ≥ 0 then v else signBit + v.natAbs)
+  else if enc = some .bcdp then Int.ofNat (bcdEnc 4 v.natAbs v.natAbs)
+  else if enc = some .bcdup then Int.ofNat (bcdEnc 8 v.natAbs v.natAbs)
+  else v
+
+/-- raw (unsigned) representation of an `A_INT32` internal value -/
+def rawOfInt32 (enc : Option Enc) (bl : Nat) (v : Int) : EncM Nat := do
+  if int32Known enc && !int32RangeOk enc bl v then odxraise .encode
+  if !int32Known enc then odxraise .odx                      -- illegal encoding for A_INT32
+  let raw := int32Raw enc bl v
   if raw < 0 ∨ bitLength raw.toNat > bl then
     odxraise .encode
     pure (raw % 2 ^ bl).toNat
@@ -185,7 +205,7 @@ def emplaceAtomic (v : IVal) (bl : Nat) (bt : BaseType) (enc : Option Enc) (hl :
   if bl = 0 then emplaceBytes [] none
   else if !bt.isNumeric && bl % 8 ≠ 0 then raise .unmodelled   -- `r<n>`, n % 8 ≠ 0: outside the envelope
   else
-    let s ← get
+    let s ← getS
     let bp := s.cursorBit
     let k := (bl + bp + 7) / 8
     -- bitstruct.pack(f"p{padding}{fmt}{bl}", raw): needs 0 ≤ raw < 2^bl
@@ -201,7 +221,7 @@ def emplaceAtomic (v : IVal) (bl : Nat) (bt : BaseType) (enc : Option Enc) (hl :
           (if maskNum * 2 ^ bp ≥ 256 ^ k then raise .foreign else pure (toBytesBE k (maskNum * 2 ^ bp)))
         else pure (usedMask.getD [])
       let rev := !hl && bt.isNumeric
-      set { s with cursorBit := 0 }
+      setS { s with cursorBit := 0 }
       emplaceBytes (if rev then coded.reverse else coded) (some (if rev then maskRaw.reverse else maskRaw))
 
 /-! ### decoding -/
@@ -216,6 +236,22 @@ structure DecState where
 deriving Repr, Inhabited
 
 abbrev DecM := OdxM DecState
+
+/-- interpretation of the raw bits of an `A_INT32` object (`bl ≥ 1`) -/
+def int32OfRaw (enc : Option Enc) (bl raw : Nat) : Int :=
+  let signBit := 2 ^ (bl - 1)
+  if enc = some .onec then (if raw < signBit then raw else -((2 ^ bl : Nat) - raw - 1 : Int))
+  else if enc = none ∨ enc = some .twoc then (if raw < signBit then raw else -((2 ^ bl : Nat) - raw : Int))
+  else if enc = some .sm then (if raw < signBit then raw else -((raw : Int) - signBit))
+  else if enc = some .bcdp then bcdDec 4 raw raw                  -- only after an odxraise in lenient mode
+  else if enc = some .bcdup then bcdDec 8 raw raw
+  else raw
+
+/-- interpretation of the raw bits of an `A_UINT32` object -/
+def uint32OfRaw (enc : Option Enc) (raw : Nat) : Int :=
+  if enc = some .bcdp then bcdDec 4 raw raw
+  else if enc = some .bcdup then bcdDec 8 raw raw
+  else raw
 
 /-- `base_data_type.python_type()` for a zero bit length -/
 def emptyValue : BaseType → IVal
@@ -232,7 +268,7 @@ def extractAtomic (bl : Nat) (bt : BaseType) (enc : Option Enc) (hl : Bool) : De
       if bt = .float32 ∧ bl ≠ 32 then do odxraise .odx; pure 32
       else if bt = .float64 ∧ bl ≠ 64 then do odxraise .odx; pure 64
       else pure bl
-    let s ← get
+    let s ← getS
     let bp := s.cursorBit
     let k := (bl + bp + 7) / 8
     if s.cursorByte + k > s.msg.length then raise .decode     -- "Expected a longer message."
@@ -255,23 +291,11 @@ def extractAtomic (bl : Nat) (bt : BaseType) (enc : Option Enc) (hl : Bool) : De
           | some cps => pure (IVal.str cps)
           | none => do odxraise .decode; raise .unmodelled      -- lenient: errors="replace"
         | .int32 => do
-          let signBit := 2 ^ (bl - 1)
-          if enc = some .onec then
-            pure (IVal.int (if raw < signBit then raw else -((2 ^ bl : Nat) - raw - 1 : Int)))
-          else if enc = none ∨ enc = some .twoc then
-            pure (IVal.int (if raw < signBit then raw else -((2 ^ bl : Nat) - raw : Int)))
-          else if enc = some .sm then
-            pure (IVal.int (if raw < signBit then raw else -((raw : Int) - signBit)))
-          else do
-            odxraise .odx
-            if enc = some .bcdp then pure (IVal.int (bcdDec 4 raw raw))
-            else if enc = some .bcdup then pure (IVal.int (bcdDec 8 raw raw))
-            else pure (IVal.int raw)
+          if ¬ (enc = none ∨ enc = some .onec ∨ enc = some .twoc ∨ enc = some .sm) then odxraise .odx
+          pure (IVal.int (int32OfRaw enc bl raw))
         | .uint32 => do
-          if enc = some .bcdp then pure (IVal.int (bcdDec 4 raw raw))
-          else if enc = some .bcdup then pure (IVal.int (bcdDec 8 raw raw))
-          else if enc = none ∨ enc = some .none_ then pure (IVal.int raw)
-          else do odxraise .odx; pure (IVal.int raw)
+          if ¬ (enc = none ∨ enc = some .none_ ∨ enc = some .bcdp ∨ enc = some .bcdup) then odxraise .odx
+          pure (IVal.int (uint32OfRaw enc raw))
         | .float32 => do
           odxassert (enc = none ∨ enc = some .none_)
           match Text.f32to64? raw with
@@ -280,7 +304,7 @@ def extractAtomic (bl : Nat) (bt : BaseType) (enc : Option Enc) (hl : Bool) : De
         | .float64 => do
           odxassert (enc = none ∨ enc = some .none_)
           pure (IVal.flt raw))
-      modify fun s => { s with cursorByte := s.cursorByte + k, cursorBit := 0 }
+      modifyS fun s => { s with cursorByte := s.cursorByte + k, cursorBit := 0 }
       pure v
 
 end OdxVerif.Codec
